@@ -122,6 +122,11 @@ def gen_config(rng):
         # the whole application is embedded in a parent that adds resources of its own: names that nobody
         # offered inside ("fresh" optional parameters) are now on offer, from the parent
         cfgd['parent'] = {'resources': rng.sample(fresh, rng.randint(1, 2)), 'prefix': rng.choice(['/up', '/up/per'])}
+        if rng.random() < 0.6:
+            # the SAME inner application is afterwards embedded in a second parent that offers fewer (or none) of those
+            # names: there the parameters fall back to their defaults -- nothing of the first parent may reach them
+            cfgd['parent2'] = {'resources': [r for r in cfgd['parent']['resources'] if rng.random() < 0.35],
+                               'prefix': rng.choice(['/two', '/up'])}
     if utypes and rng.random() < 0.6:
         dn = list(rres) + ['dq%d' % i for i in range(len(utypes))]
         cfgd['decoy'] = [[dn[i], t] for i, (u, t) in enumerate(utypes)]
@@ -217,12 +222,21 @@ def build(cfg, tag):
                       resources=resources, middlewares=objs['app'], error_handler=eh)
     allres = dict(resources)
     allres.update(route_resources)
+    hosts = {}
     if cfg.get('parent'):
+        inner, inner_res, inner_pattern = app, dict(allres), pattern
         pres = dict((r, Res(r, tag + '-parent')) for r in cfg['parent']['resources'])
-        app = Application([(cfg['parent']['prefix'], app)], resources=pres)
+        app = Application([(cfg['parent']['prefix'], inner)], resources=pres)
         allres.update(pres)
-        pattern = cfg['parent']['prefix'] + pattern
-    return app, allres, pattern
+        pattern = cfg['parent']['prefix'] + inner_pattern
+        if cfg.get('parent2'):
+            pres2 = dict((r, Res(r, tag + '-parent2')) for r in cfg['parent2']['resources'])
+            app2 = Application([(cfg['parent2']['prefix'], inner)], resources=pres2)
+            res2 = dict(inner_res)
+            res2.update(pres2)
+            hosts[2] = (app2, res2, cfg['parent2']['prefix'] + inner_pattern)
+    hosts[1] = (app, allres, pattern)
+    return hosts
 
 
 SEG = {'str': '<%s>', 'int': '<%s:int>', 'multi': '<%s+>', 'float': '<%s:float>', 'optint': '<%s?int>', 'optstr': '<%s?>',
@@ -363,7 +377,7 @@ class C02(Check):
     level_note = 'Trusted: the resolver (~40 lines from the property text), generator validity rules V1-V3.'
     required_probes = ('embedded-in-parent-offering-more-names', 'decoy-route-binding-named-like-resource', 'positional-next-multi', 'render-error-injected', 'optional-got-offered-value', 'kwonly-got-offered-value', 'null-route-defaults', 'concurrent-batch',
                        'kind-lambda', 'kind-callable', 'kind-classmethod', 'kind-decorated', 'multi-url-value',
-                       'name-spelled-like-generated-code-identifier', 'default-for-name-provided-elsewhere', 'optional-url-binding-absent', 'optional-url-binding-zero', 'optional-url-binding-present', 'url-value-zero', 'multi-url-binding-empty')
+                       'same-application-embedded-in-second-parent', 'name-spelled-like-generated-code-identifier', 'default-for-name-provided-elsewhere', 'optional-url-binding-absent', 'optional-url-binding-zero', 'optional-url-binding-present', 'url-value-zero', 'multi-url-binding-empty')
 
     def generate(self, seed, tier):
         S = Streams(seed)
@@ -377,6 +391,8 @@ class C02(Check):
             for _i in range(n):
                 seq += 1
                 reqs.append({'seq': seq, 'kind': rng.choice(['route', 'route', 'route', 'null'])})
+                if cfg.get('parent2') and rng.random() < 0.5:
+                    reqs[-1]['host'] = 2
             op = {'reqs': reqs, 'concurrent': n > 1 and rng.random() < 0.6}
             if op['concurrent']:
                 gran = sch.choice(['line', 'line', 'ins'])
@@ -395,7 +411,8 @@ class C02(Check):
         cfg = plan['config']
         K = 'C02/'
         try:
-            app, resources, pattern = build(cfg, 'A')
+            hosts = build(cfg, 'A')
+            app, resources, pattern = hosts[1]
         except Exception as e:
             res.violate(K + 'setup-failed:%s' % type(e).__name__,
                         'resolvable-by-construction stack rejected: %r\n%s' % (e, canon(cfg)))
@@ -421,15 +438,17 @@ class C02(Check):
 
         def serve(r):
             RT.set_seq(r['seq'])
+            host = r.get('host', 1) if r.get('host', 1) in hosts else 1
+            pcfg = cfg.get('parent2') if host == 2 else cfg.get('parent')
             if r['kind'] == 'route':
                 _, path = url_values(cfg, r['seq'])
-                path = (cfg['parent']['prefix'] if cfg.get('parent') else '') + path
+                path = (pcfg['prefix'] if pcfg else '') + path
             else:
                 path = '/nowhere/%d' % r['seq']
             env = make_environ('GET', path)
             env['sim.seq'] = r['seq']
             envs[r['seq']] = env
-            results[r['seq']] = call_app(app, env, validate=False)
+            results[r['seq']] = call_app(hosts[host][0], env, validate=False)
         for step, op in enumerate(plan['ops']):
             if op.get('concurrent') and len(op['reqs']) > 1:
                 names = ['T%d' % r['seq'] for r in op['reqs']]
@@ -449,7 +468,14 @@ class C02(Check):
                     serve(r)
                 mode = 'seq'
             for r in op['reqs']:
-                self.judge(cfg, app, resources, pattern, r, envs[r['seq']], results[r['seq']], res, step, mode)
+                host = r.get('host', 1) if r.get('host', 1) in hosts else 1
+                if host == 2:
+                    res.probe('same-application-embedded-in-second-parent')
+                    jcfg = dict(cfg, parent=cfg['parent2'])
+                else:
+                    jcfg = cfg
+                happ, hres, hpattern = hosts[host]
+                self.judge(jcfg, happ, hres, hpattern, r, envs[r['seq']], results[r['seq']], res, step, mode)
                 if res.violations:
                     return res
         res.steps = sum(len(op['reqs']) for op in plan['ops'])
